@@ -292,4 +292,24 @@ PROPS = {
             {"name": "random", "test": "TestRandom", "checks": {Q: 48, T: 1600}, "shards": {Q: 16, T: 16}, "timeout": {Q: 400, T: 2400}, "shrinktime": "40s"},
         ],
     },
+    "C14": {
+        "pkg": "c14", "bin": True,
+        "technique": "rapid task/context sets run concurrently, sequentially, through the scheduler and through the CLI; invariant over "
+                     "the ordered hook trace",
+        "level_text": "1..8 tasks over 1..3 contexts (up succeeding/failing; tasks with/without before/after/condition, succeeding/failing) "
+                      "are started behind a barrier, one after another, as parallel stages, or as CLI targets; every hook and command "
+                      "appends a token to one trace file. Per context: exactly one `up` before every other token; failing `up` => no "
+                      "task command and every Run errors; #before = #after = executions, and in every prefix #before >= #started tasks "
+                      "and #after <= #ended tasks; sequential runs strictly before, task, after; exactly one `down` after everything, "
+                      "none for unused contexts, also when a CLI target failed.",
+        "level_note": "A task skipped by its own condition may or may not count as an execution for before/after; `down` after a failed "
+                      "`up` may or may not run (statement silent).",
+        "rule": "rapid cases; non-trivial = >= 2 tasks share a context in a concurrent mode, or a task has a hook/condition, or `up` fails; "
+                "distinct = canonical JSON.",
+        "assumptions": ["tokens are appended with printf >> (O_APPEND, atomic), so a global order exists across concurrent tasks"],
+        "parts": [
+            {"name": "api", "test": "TestAPI", "checks": {Q: 2400, T: 60000}, "shards": {Q: 8, T: 16}, "timeout": {Q: 400, T: 2400}},
+            {"name": "cli", "test": "TestCLI", "checks": {Q: 240, T: 6000}, "shards": {Q: 8, T: 16}, "timeout": {Q: 400, T: 2400}},
+        ],
+    },
 }
